@@ -18,6 +18,25 @@ def known(meta, msg):
     return None
 
 
+def counter_phase(rep, exe_impl, exe_model):
+    """the remembered position round-trips through counter.c for every size_t value"""
+    rng = random.Random(rep.seed + 8)
+    vals = [0, 1, 9, 10, 99, 12345678, 99999999, 100000000, 100000001, 123456789012, 10 ** 15, 2 ** 32, 2 ** 63 - 1, 2 ** 63, 2 ** 64 - 1]
+    vals += [rng.randint(0, 10 ** rng.randint(1, 19)) for _ in range(60)]
+    cases = [("n%d" % i, "ctr %d" % v) for i, v in enumerate(vals)]
+    impl, model, problems = vlib.correspond(exe_impl, exe_model, "pure", cases)
+    for (cid, script), v in zip(cases, vals):
+        got = impl.get(cid)
+        if got != ["ctr %d" % v]:
+            rep.violation("position", {"case": cid, "script": [script], "driver": "pure", "implementation": got,
+                                       "what": "the position %d written with write_counter was read back as %s" % (v, got)})
+            return True, 0, len(cases)
+        if exe_model and model.get(cid) != got:
+            rep.defer_divergence({"case": cid, "script": [script], "driver": "pure", "implementation": got, "model": model.get(cid),
+                                  "what": "implementation and model differ"})
+    return False, len(cases), len(cases)
+
+
 def main(rep):
     rng = random.Random(rep.seed)
     n = 200 if rep.tier == "quick" else 4000
@@ -25,9 +44,9 @@ def main(rep):
     for i in range(n):
         t, m = wc.gen_history_case(rng)
         cases.append(("h%d" % i, t, m))
-    wk.standard_main(rep, cases=cases, monitors=MON, fault=True, only=HIST, known=known,
+    wk.standard_main(rep, cases=cases, monitors=MON, fault=True, only=HIST, known=known, extra=counter_phase,
                      fault_monitors=["history", "position_kept", "position_not_ahead", "store_immutable", "fault_reported", "no_error"],
-                     rule=("append-only histories: appends of {0,1,10,60} bytes, passes, clock steps, restarts; after every pass the versions (ordered by "
+                     rule=("the position file round-trips every value (boundaries of digit counts up to 2^64-1); append-only histories: appends of {0,1,10,60} bytes, passes, clock steps, restarts; after every pass the versions (ordered by "
                            "version and collision index) must concatenate to the file up to the remembered position; plus every single fault in the copy and "
                            "the position update of the two history scenarios, followed by restart and drain"))
 
